@@ -28,11 +28,18 @@ class Ctx:
 
     # ---- known findings
     def _load_known(self):
-        try:
-            k = json.load(open(KNOWN))
-        except FileNotFoundError:
-            return []
-        return [f for f in k.get("findings", []) if f.get("property") == self.pid]
+        out = []
+        paths = [KNOWN]
+        d = os.path.join(VERIF, "known_findings.d")
+        if os.path.isdir(d):
+            paths += [os.path.join(d, f) for f in sorted(os.listdir(d)) if f.endswith(".json")]
+        for p in paths:
+            try:
+                k = json.load(open(p))
+            except FileNotFoundError:
+                continue
+            out += [f for f in k.get("findings", []) if f.get("property") == self.pid]
+        return out
 
     def is_known(self, signature):
         for f in self._known:
